@@ -466,6 +466,7 @@ def _run_reject(case):
     flags["translated_scalar_rejected"] = rejects(good.translated, 5)
     flags["translated_missing_component_rejected"] = rejects(good.translated, 1, None, 3)
     flags["translated_pair_rejected"] = rejects(good.translated, [1, 2])
+    flags["translated_column_vector_rejected"] = rejects(good.translated, np.array([[1.0], [2.0], [3.0]])) and rejects(S.translated, np.array([[1.0], [2.0], [3.0]]))
     flags["composite_translated_scalar_rejected"] = rejects(S.translated, 5) and rejects(S.rotated, 0.3)
     # ---- a collection given as an iterator is the collection (F93)
     a, b = Sphere(n=1.5, r=1.0, center=(0, 0, 0)), Sphere(n=1.4, r=1.0, center=(1.2, 0, 0))
